@@ -66,7 +66,7 @@ static std::string dump_msg(const Message *m)
 }
 
 struct Step { char kind; unsigned fnum; std::string val; };
-struct Case { long long n; std::string ctx, mtype, raw; std::vector<Step> steps; std::vector<std::string> ops; };
+struct Case { long long n; std::string ctx, mtype, raw, cls; std::vector<Step> steps; std::vector<std::string> ops; };
 
 static std::string exc_name(const std::exception& e)
 {
@@ -113,7 +113,7 @@ static void run_case(const Case& c)
 	std::string encoded;
 	for (auto& op : c.ops) {
 		std::string st = "ok", payload;
-		fprintf(stderr, "@CLASS %s\n", op.c_str());
+		fprintf(stderr, "@CLASS %s%s%s\n", op.c_str(), c.cls.empty() ? "" : "|", c.cls.c_str());
 		try {
 			if (op == "ENC" || op == "ENCPTR") {
 				std::unique_ptr<Message> m(build(c, ctx));
@@ -175,6 +175,7 @@ int main(int argc, char **argv)
 {
 	vh::Args a(argc, argv);
 	setvbuf(stdout, nullptr, _IOLBF, 0);	// complete lines survive a sanitizer abort
+	R.case_seconds = (unsigned)a.num("case-seconds", 10);
 	std::ifstream in(a.str("script"));
 	if (!in) { fprintf(stderr, "cannot open script\n"); return 2; }
 	long long start = a.num("start", 0), cases = a.num("cases", 1LL << 60);
@@ -189,6 +190,7 @@ int main(int argc, char **argv)
 		else if (k == "H" || k == "F" || k == "T") { Step s; s.kind = k[0]; std::string hv; is >> s.fnum >> hv; s.val = vh::unhex(hv); cur.steps.push_back(s); }
 		else if (k == "G") { Step s; s.kind = 'G'; is >> s.fnum >> s.val; cur.steps.push_back(s); }
 		else if (k == "E" || k == "e" || k == "g") { Step s; s.kind = k[0]; s.fnum = 0; cur.steps.push_back(s); }
+		else if (k == "CLASS") { std::getline(is, cur.cls); while (!cur.cls.empty() && cur.cls[0] == ' ') cur.cls.erase(0, 1); }
 		else if (k == "RAW") { std::string hv; is >> hv; cur.raw = vh::unhex(hv); }
 		else if (k == "DO") { std::string op; while (is >> op) cur.ops.push_back(op); }
 		else if (k == "END") {
